@@ -1,9 +1,397 @@
-//! E1 worldsim, fault-injecting configuration (C19). Filled in below.
-use crate::wcase::Op;
+//! E1 worldsim, fault-injecting configuration (C19): a component destructor panics at a chosen
+//! destructor call of a destroying operation. The panic is caught, the ledger is checked for
+//! double drops, every lookup is checked to expose only live values, the model is re-synchronised
+//! *narrowly* (component maps adopt what the real storages now report, after validation), and the
+//! run continues under the strict oracle.
+
+use crate::comps::{EntryOp, Inner, V};
+use crate::ledger;
+use crate::wcase::*;
 use crate::wexec::{Exec, R};
+use std::panic::{catch_unwind, AssertUnwindSafe};
+
+#[derive(Clone, Copy, Debug, PartialEq, Eq)]
+pub enum Victim {
+    /// an existing value, by identity
+    Val(u64),
+    /// the n-th value that will be created from now on (1 = next)
+    Next(u64),
+    /// the n-th zero-sized component destroyed from now on
+    Zst(u64),
+    /// the next default-filler destroyed
+    Filler,
+}
+
+fn comps_at(ex: &Exec, idx: u32, out: &mut Vec<Victim>, zst: &mut u64) {
+    for (s, m) in ex.model.comps.iter().enumerate() {
+        if let Some(v) = m.get(&idx) {
+            if ex.model.kinds[s].zst() {
+                *zst += 1;
+            } else {
+                out.push(Victim::Val(v.0));
+            }
+        }
+    }
+}
+
+/// The destructor calls the model predicts for this operation, one `Victim` per call.
+pub fn predict(ex: &Exec, op: &Op) -> Vec<Victim> {
+    let mut out: Vec<Victim> = vec![];
+    let mut zst = 0u64;
+    match &op.kind {
+        OpKind::DeleteNow(h) => {
+            if let Some((hn, e)) = ex.res(*h) {
+                if ex.model.alive(hn) {
+                    comps_at(ex, e.id(), &mut out, &mut zst);
+                }
+            }
+        }
+        OpKind::DeleteBatch(hs) => {
+            let mut seen = vec![];
+            for h in hs {
+                let Some((hn, e)) = ex.res(*h) else { continue };
+                if !ex.model.alive(hn) || seen.contains(&hn) {
+                    break;
+                }
+                seen.push(hn);
+                comps_at(ex, e.id(), &mut out, &mut zst);
+            }
+        }
+        OpKind::DeleteAll => {
+            for hn in ex.model.live_handles() {
+                comps_at(ex, ex.model.hs[hn].ent.id(), &mut out, &mut zst);
+            }
+        }
+        OpKind::Maintain => {
+            for hn in ex.model.live_handles() {
+                if ex.model.hs[hn].pending_kill {
+                    comps_at(ex, ex.model.hs[hn].ent.id(), &mut out, &mut zst);
+                }
+            }
+        }
+        OpKind::Clear { slot } => {
+            let s = *slot as usize;
+            if ex.model.kinds[s].zst() {
+                zst += ex.model.comps[s].len() as u64;
+            } else {
+                for v in ex.model.comps[s].values() {
+                    out.push(Victim::Val(v.0));
+                }
+            }
+        }
+        OpKind::Insert { slot, h, .. } => {
+            if let Some((hn, _)) = ex.res(*h) {
+                let s = *slot as usize;
+                if !ex.model.alive(hn) {
+                    // refused: the new value is destroyed inside insert
+                    if ex.model.kinds[s].zst() {
+                        zst += 1;
+                    } else {
+                        out.push(Victim::Next(1));
+                    }
+                } else if ex.model.kinds[s].inner == Inner::DefaultVec && ex.model.get(s, hn).is_none() {
+                    // may overwrite (and destroy) a default filler
+                    out.push(Victim::Filler);
+                }
+            }
+        }
+        OpKind::Entry {
+            slot,
+            h,
+            op: EntryOp::OrInsert,
+            ..
+        } => {
+            if let Some((hn, _)) = ex.res(*h) {
+                let s = *slot as usize;
+                if ex.model.alive(hn) && ex.model.get(s, hn).is_some() {
+                    if ex.model.kinds[s].zst() {
+                        zst += 1;
+                    } else {
+                        out.push(Victim::Next(1));
+                    }
+                }
+            }
+        }
+        OpKind::ChangeSet { pairs, consume } => {
+            let n = pairs.iter().filter(|(h, _)| ex.ctx.resolve(*h).is_some()).count() as u64;
+            let all_destroyed = matches!(
+                consume,
+                CsConsume::Clear | CsConsume::Drop | CsConsume::ReadThenDrop | CsConsume::MutThenDrop
+            );
+            if all_destroyed {
+                for i in 1..=n {
+                    out.push(Victim::Next(i));
+                }
+            } else {
+                // only the amounts combined into an existing slot are destroyed for sure
+                let mut seen = vec![];
+                let mut i = 0;
+                for (h, _) in pairs {
+                    let Some(e) = ex.ctx.resolve(*h) else { continue };
+                    i += 1;
+                    if seen.contains(&e.id()) {
+                        out.push(Victim::Next(i));
+                    } else {
+                        seen.push(e.id());
+                    }
+                }
+            }
+        }
+        _ => {}
+    }
+    for i in 0..zst {
+        out.push(Victim::Zst(i + 1));
+    }
+    out.sort_by_key(|v| match v {
+        Victim::Val(id) => (0, *id),
+        Victim::Next(n) => (1, *n),
+        Victim::Zst(n) => (2, *n),
+        Victim::Filler => (3, 0),
+    });
+    out
+}
 
 pub fn apply_with_fault(ex: &mut Exec, op: &Op) -> R {
-    let mut plain = op.clone();
-    plain.fault = None;
-    ex.apply(&plain)
+    let victims = predict(ex, op);
+    let Some(f) = op.fault else { return run_plain(ex, op) };
+    if victims.is_empty() {
+        return run_plain(ex, op);
+    }
+    let victim = victims[f.k as usize % victims.len()];
+    match victim {
+        Victim::Val(id) => ledger::arm_fault(id),
+        Victim::Next(n) => ledger::arm_fault(ledger::total_vals() + n),
+        Victim::Zst(n) => ledger::arm_zst_fault(n),
+        Victim::Filler => ledger::arm_filler_fault(),
+    }
+    ex.stats.faults_armed += 1;
+    let pre_comps = ex.model.comps.clone();
+    let r = catch_unwind(AssertUnwindSafe(|| ex.apply_inner(op)));
+    let fired = ledger::disarm();
+    match r {
+        Ok(res) => {
+            if fired {
+                // the destructor panicked but the panic did not reach the caller
+                ex.stats.probe("fault_fired_without_unwinding_to_caller");
+            }
+            res
+        }
+        Err(e) => {
+            let msg = crate::util::panic_message(&e);
+            if !fired || !msg.contains(ledger::FAULT_MSG) {
+                let ps = crate::wexec::op_props(&op.kind);
+                return Err(ex.viol(
+                    &ps,
+                    "panic-escaped",
+                    format!(
+                        "operation {:?} panicked: {} (at {})",
+                        op.kind,
+                        msg,
+                        crate::util::last_panic_location()
+                    ),
+                ));
+            }
+            ex.stats.faults_fired += 1;
+            ex.stats.probe(match &op.kind {
+                OpKind::Clear { .. } => "fault_fired_in_clear",
+                OpKind::DeleteNow(_) | OpKind::DeleteBatch(_) | OpKind::DeleteAll => "fault_fired_in_entity_deletion",
+                OpKind::Maintain => "fault_fired_in_maintain_purge",
+                OpKind::Insert { .. } => "fault_fired_in_insert",
+                OpKind::ChangeSet { .. } => "fault_fired_in_changeset",
+                _ => "fault_fired_elsewhere",
+            });
+            // a corrupted storage may panic inside specs while it is inspected: that, too, is
+            // "the world does not remain usable"
+            match catch_unwind(AssertUnwindSafe(|| resync(ex, op, &pre_comps))) {
+                Ok(r) => r,
+                Err(e) => {
+                    let msg = crate::util::panic_message(&e);
+                    Err(ex.viol(
+                        &["C19"],
+                        "post-fault-panic",
+                        format!(
+                            "after the caught destructor panic in {:?}, inspecting the world panicked: {} (at {})",
+                            op.kind,
+                            msg,
+                            crate::util::last_panic_location()
+                        ),
+                    ))
+                }
+            }
+        }
+    }
+}
+
+fn run_plain(ex: &mut Exec, op: &Op) -> R {
+    let r = catch_unwind(AssertUnwindSafe(|| ex.apply_inner(op)));
+    match r {
+        Ok(r) => r,
+        Err(e) => {
+            let msg = crate::util::panic_message(&e);
+            let ps = crate::wexec::op_props(&op.kind);
+            Err(ex.viol(
+                &ps,
+                "panic-escaped",
+                format!("operation {:?} panicked: {}", op.kind, msg),
+            ))
+        }
+    }
+}
+
+/// After a caught injected panic: validate what the world now exposes, adopt it, continue.
+fn resync(ex: &mut Exec, op: &Op, pre: &[std::collections::BTreeMap<u32, V>]) -> R {
+    // (a) no value destroyed twice so far
+    let anomalies = ledger::take_anomalies();
+    if let Some(a) = anomalies.first() {
+        return Err(ex.viol(&["C19"], "ledger-exactly-once", a.clone()));
+    }
+    // entity-level effects are not interrupted by component destructors: the allocator finished
+    // before the purge started
+    match &op.kind {
+        OpKind::DeleteNow(h) => {
+            if let Some((hn, _)) = ex.res(*h) {
+                if ex.model.alive(hn) {
+                    ex.model.kill_entity_only(hn);
+                }
+            }
+        }
+        OpKind::DeleteBatch(hs) => {
+            for h in hs {
+                let Some((hn, _)) = ex.res(*h) else { continue };
+                if !ex.model.alive(hn) {
+                    break;
+                }
+                ex.model.kill_entity_only(hn);
+            }
+        }
+        OpKind::DeleteAll => {
+            for hn in ex.model.live_handles() {
+                ex.model.kill_entity_only(hn);
+            }
+        }
+        OpKind::Maintain => {
+            let live = ex.model.live_handles();
+            for hn in &live {
+                ex.model.hs[*hn].merged = true;
+            }
+            for hn in live {
+                if ex.model.hs[hn].pending_kill {
+                    ex.model.kill_entity_only(hn);
+                }
+            }
+            // the purge unwound before the lazy queue was touched: everything stays queued
+        }
+        _ => {}
+    }
+    // (b) every lookup exposes only values that are still alive per the ledger, and nothing
+    //     that was not there before the operation
+    for s in 0..ex.slots.len() {
+        let kind = ex.model.kinds[s];
+        let mask = ex.slots[s].mask(ex.w());
+        let dump = ex.slots[s].dump(ex.w());
+        if dump.iter().map(|x| x.0).collect::<Vec<u32>>() != mask {
+            return Err(ex.viol(
+                &["C19"],
+                "post-fault-join-vs-mask",
+                format!("slot {} ({}): after the caught panic the join visits {:?} but the mask is {:?}", s, kind.name(), dump, mask),
+            ));
+        }
+        if !kind.zst() {
+            for (i, v) in &dump {
+                if ledger::state(v.0) != Some(ledger::VState::Live) {
+                    return Err(ex.viol(
+                        &["C19"],
+                        "read-of-dead-value",
+                        format!(
+                            "slot {} ({}) index {}: after the caught destructor panic a lookup still returns value {} whose ledger state is {:?}",
+                            s,
+                            kind.name(),
+                            i,
+                            v.0,
+                            ledger::state(v.0)
+                        ),
+                    ));
+                }
+                match pre[s].get(i) {
+                    Some(p) if p.0 == v.0 => {}
+                    other => {
+                        // a value may be new only if this very op inserted it
+                        let inserted_by_op = matches!(&op.kind, OpKind::Insert { slot, .. } | OpKind::Entry { slot, .. } if *slot as usize == s);
+                        if !inserted_by_op {
+                            return Err(ex.viol(
+                                &["C19"],
+                                "post-fault-foreign-value",
+                                format!(
+                                    "slot {} index {}: after the caught panic the storage holds {:?} where it held {:?} before",
+                                    s, i, v, other
+                                ),
+                            ));
+                        }
+                    }
+                }
+            }
+            // slice views must agree as well
+            if let Some(view) = ex.slots[s].slice(ex.w()) {
+                for (pos, v) in &view.items {
+                    let st = ledger::state(v.0);
+                    if st != Some(ledger::VState::Live) {
+                        return Err(ex.viol(
+                            &["C19"],
+                            "read-of-dead-value",
+                            format!(
+                                "slot {} ({}): after the caught panic the slice view exposes value {} at position {} whose ledger state is {:?}",
+                                s,
+                                kind.name(),
+                                v.0,
+                                pos,
+                                st
+                            ),
+                        ));
+                    }
+                }
+            }
+        }
+        // (c) adopt
+        ex.model.comps[s] = dump.into_iter().collect();
+        // events: adopt what was emitted
+        if ex.model.track[s].reader {
+            let real = ex.slots[s].read_events(ex.w());
+            let t = &mut ex.model.track[s];
+            t.expected.clear();
+            for ev in real {
+                match ev {
+                    crate::comps::Ev::Ins(i) => {
+                        t.replayed.insert(i);
+                    }
+                    crate::comps::Ev::Rem(i) => {
+                        t.replayed.remove(&i);
+                    }
+                    _ => {}
+                }
+            }
+            // an interrupted operation may have emitted an event for a component that is still
+            // there (or vice versa): membership replay is no longer demanded for this reader
+            t.replay_valid = false;
+        } else {
+            ex.model.track[s].expected.clear();
+        }
+    }
+    // (d) values in flight may be leaked - or destroyed later (e.g. a value left in an unmasked
+    //     slot is overwritten): the ledger comparison restarts from here and tolerates the
+    //     destruction (once) of values that are alive but no longer in the world
+    let _ = ledger::take_drops();
+    let in_world = ex.model.values_in_world();
+    for id in ledger::live_ids() {
+        if !in_world.contains(&id) {
+            ex.leaked_ok.insert(id);
+        }
+    }
+    ex.model.exp_destroyed.clear();
+    ex.model.exp_zst_destroyed = 0;
+    let (_, zd, _) = ledger::zst_counts();
+    ex.zst_dropped_seen = zd;
+    // entity state must be exactly the model's: the world remains usable
+    ex.check_aliveness()?;
+    ex.check_storages(&["C19"])?;
+    Ok(())
 }
